@@ -146,7 +146,7 @@ func (c *Ctx) queueOrIOMember(m *ssa.Function) (bool, string) {
 	funcInstrs(m, func(in ssa.Instruction) {
 		if cc := callOf(in); cc != nil {
 			for _, arg := range cc.Args {
-				if c.derivesFromField(arg, a.IO) || c.derivesFromField(arg, a.Sock) {
+				if c.derivesFromIO(arg) || c.derivesFromField(arg, a.Sock) {
 					io = true
 				}
 			}
@@ -428,7 +428,11 @@ func runC06(c *Ctx) {
 // perConnFields: the per-connection state fields of Conn.
 func (c *Ctx) perConnFields() map[*types.Var]string {
 	a := c.A
-	return map[*types.Var]string{a.Sock: "sock", a.IO: "io", a.In: "in", a.Out: "out", a.Die: "die"}
+	m := map[*types.Var]string{a.Sock: "sock", a.In: "in", a.Out: "out", a.Die: "die"}
+	for _, fv := range a.IOFields {
+		m[fv] = "io"
+	}
+	return m
 }
 
 // effects summarises (transitively, over call/defer edges) what a function
@@ -694,7 +698,7 @@ func (c *Ctx) connectInertRule(rule string) {
 				return
 			}
 			fv, _ := loadedField(cc.Value)
-			if fv != a.Sock && fv != a.IO {
+			if fv != a.Sock && !a.isIO(fv) {
 				if !c.derivesFromField(cc.Value, a.Sock) {
 					return
 				}
@@ -1016,7 +1020,7 @@ func (c *Ctx) drainerAt(tf *teardownFacts, g *ssa.Go, start ssa.Instruction) {
 		return
 	}
 	drains := map[*types.Var]bool{}
-	var doneCh *ssa.MakeChan
+	var doneCh ssa.Value // the stop token: a channel made by the teardown, or its context.WithCancel call
 	for i, st := range sel.States {
 		if st.Dir != types.RecvOnly {
 			continue
@@ -1039,8 +1043,26 @@ func (c *Ctx) drainerAt(tf *teardownFacts, g *ssa.Go, start ssa.Instruction) {
 		}
 		// a channel made by the teardown (or its start helper): the stop signal
 		for _, o := range other {
-			mk, ok := o.(*ssa.MakeChan)
-			if !ok || (mk.Parent() != td && mk.Parent() != g.Parent()) {
+			var mk ssa.Value
+			if m0, ok := o.(*ssa.MakeChan); ok && (m0.Parent() == td || m0.Parent() == g.Parent()) {
+				mk = m0
+			}
+			// ... or Done() of a context the teardown made with context.WithCancel and handed to the drainer
+			if dc, ok := o.(*ssa.Call); ok && mk == nil && dc.Call.IsInvoke() && dc.Call.Method.Name() == "Done" {
+				if pr, isP := dc.Call.Value.(*ssa.Parameter); isP && pr.Parent() == callee {
+					for pi, q := range callee.Params {
+						if q != pr || pi >= len(g.Call.Args) {
+							continue
+						}
+						if ex, isE := g.Call.Args[pi].(*ssa.Extract); isE && ex.Index == 0 {
+							if wc, isW := ex.Tuple.(*ssa.Call); isW && calleeName(&wc.Call) == "context.WithCancel" && (wc.Parent() == td || wc.Parent() == g.Parent()) {
+								mk = wc
+							}
+						}
+					}
+				}
+			}
+			if mk == nil {
 				continue
 			}
 			if blk := selectCaseBlock(sel, i); blk != nil {
@@ -1073,10 +1095,21 @@ func (c *Ctx) drainerAt(tf *teardownFacts, g *ssa.Go, start ssa.Instruction) {
 		return ok
 	}
 	isStop := func(x ssa.Instruction) bool {
+		if wc, isW := doneCh.(*ssa.Call); isW {
+			// the cancel function of that WithCancel call
+			if call, ok := x.(*ssa.Call); ok && !call.Call.IsInvoke() && call.Call.StaticCallee() == nil {
+				for _, o := range c.Origins(call.Call.Value) {
+					if ex, isE := o.(*ssa.Extract); isE && ex.Tuple == ssa.Value(wc) && ex.Index == 1 {
+						return true
+					}
+				}
+			}
+			return false
+		}
 		for _, op := range ChanOps(td) {
 			if op.In == x && (op.Kind == "close" || op.Kind == "send") {
 				for _, o := range c.Origins(op.Chan) {
-					if o == ssa.Value(doneCh) {
+					if o == doneCh {
 						return true
 					}
 				}
@@ -1336,7 +1369,7 @@ func (c *Ctx) releaseCensus(rule string) ([]*ssa.Function, *Locksets, *teardownF
 			}
 			all = append(all, cc.Args...)
 			for _, arg := range all {
-				if c.derivesFromField(arg, a.IO) || c.derivesFromField(arg, a.Sock) {
+				if c.derivesFromIO(arg) || c.derivesFromField(arg, a.Sock) {
 					io = true
 				}
 			}
@@ -1383,7 +1416,7 @@ func (c *Ctx) releaseCensus(rule string) ([]*ssa.Function, *Locksets, *teardownF
 			all = append(all, cc.Args...)
 			io := false
 			for _, arg := range all {
-				if c.derivesFromField(arg, a.IO) || c.derivesFromField(arg, a.Sock) {
+				if c.derivesFromIO(arg) || c.derivesFromField(arg, a.Sock) {
 					io = true
 				}
 			}
@@ -1981,11 +2014,11 @@ func (c *Ctx) doesSocketIO(fn *ssa.Function) bool {
 					return
 				}
 				for _, arg := range cc.Args {
-					if c.derivesFromField(arg, a.IO) || c.derivesFromField(arg, a.Sock) {
+					if c.derivesFromIO(arg) || c.derivesFromField(arg, a.Sock) {
 						found = true
 					}
 				}
-				if cc.IsInvoke() && (c.derivesFromField(cc.Value, a.IO) || c.derivesFromField(cc.Value, a.Sock)) {
+				if cc.IsInvoke() && (c.derivesFromIO(cc.Value) || c.derivesFromField(cc.Value, a.Sock)) {
 					found = true
 				}
 			}
@@ -2017,7 +2050,7 @@ func (c *Ctx) ioErrorsEndRule(rule string) {
 				io = callee != a.Teardown && callee != a.TeardownCore && c.doesSocketIO(callee)
 			} else {
 				for _, arg := range cc.Args {
-					if c.derivesFromField(arg, a.IO) || c.derivesFromField(arg, a.Sock) {
+					if c.derivesFromIO(arg) || c.derivesFromField(arg, a.Sock) {
 						io = true
 					}
 				}
